@@ -51,6 +51,7 @@ Scope decisions (DESIGN section 6, C04/C05) enforced by `scope_violation(ast)`:
     * no whitespace, no '+', nothing after a '(' but a node token.
 """
 import functools
+import re
 import itertools
 import random
 
@@ -405,26 +406,107 @@ def _branch_seqs(j, depth_left, max_branches):
     return tuple(res)
 
 
-def _instantiate(skel, counter):
+def _name(i):
+    return NAMES[i % len(NAMES)] + ('' if i < len(NAMES) else str(i // len(NAMES)))
+
+
+def skeleton_to_ast(skel, counter=None):
+    """skeleton (nested lists: chain = [node..], node = [branch..], branch = chain) -> undecorated AST with
+    names A, B, C ... in order of appearance"""
+    if counter is None:
+        counter = [0]
     chain = []
     for brs in skel:
-        n = mk_node(NAMES[counter[0] % len(NAMES)] + ('' if counter[0] < len(NAMES) else str(counter[0] // len(NAMES))))
+        n = mk_node(_name(counter[0]))
         counter[0] += 1
         chain.append(n)
         for b in brs:
-            n['br'].append(mk_branch(_instantiate(b, counter)))
+            n['br'].append(mk_branch(skeleton_to_ast(b, counter)))
     return chain
 
 
-def skeletons(k, max_depth=3, max_branches=3):
-    """All ASTs with exactly k node tokens, no decoration, names A, B, C ... in order of appearance."""
+def _to_lists(skel):
+    return [[_to_lists(b) for b in node] for node in skel]
+
+
+def skeleton_shapes(k, max_depth=3, max_branches=3):
+    """All arrangements of exactly k node tokens (at most max_branches branches per node, nesting <= max_depth)
+    as nested lists."""
     for skel in _chains(k, max_depth, max_branches):
-        yield _instantiate(skel, [0])
+        yield _to_lists(skel)
+
+
+def skeletons(k, max_depth=3, max_branches=3):
+    """All ASTs with exactly k node tokens, no decoration."""
+    for skel in skeleton_shapes(k, max_depth, max_branches):
+        yield skeleton_to_ast(skel)
+
+
+def skeleton_parents(skel):
+    parents = []
+    flat_nodes(skeleton_to_ast(skel), parents=parents)
+    return parents
 
 
 # ------------------------------------------------------------------------------------------------
-# decoration helpers
+# recipes: compact, JSON-serialisable descriptions of a decorated AST (cheap to enumerate and to pickle;
+# `build(recipe)` makes the AST).  All enumerators yield recipes; `asts(recipes)` converts.
+#
+#   {'skel': nested lists,
+#    'in':   [sym for node 1, 2, ... in order of appearance]            (optional)
+#    'rings': [[u, v, spelling, sym, both, id], ...]                      (optional) ring bond between nodes u < v,
+#             spelling in RING_SPELLINGS, symbol at the opening marker (and at the closing marker when `both`)
+#    'mult': [[kind, node index, n, inter symbol], ...]                   (optional) kind 'node' | 'branch'
+#    'ann':  [[node index, index into ANNOTATIONS], ...]}                 (optional)
+# A case may also carry a complete AST under 'ast' (random part).
 # ------------------------------------------------------------------------------------------------
+RING_SPELLINGS = {
+    # name: (opening marker, closing marker) for ring id i (1..9)
+    'd': lambda i: (str(i), str(i)),
+    'p': lambda i: ('%1' + str(i), '%1' + str(i)),
+    'dp': lambda i: (str(i), '%0' + str(i)),
+    'pd': lambda i: ('%0' + str(i), str(i)),
+}
+
+
+def _sorted_rings(rings):
+    """digit markers before %nn markers, otherwise keep the order"""
+    return [r for r in rings if not r[1].startswith('%')] + [r for r in rings if r[1].startswith('%')]
+
+
+def build(recipe):
+    """recipe (or {'ast': ...}) -> AST"""
+    if 'ast' in recipe:
+        return recipe['ast']
+    ast = skeleton_to_ast(recipe['skel'])
+    flat = flat_nodes(ast)
+    for n, s in zip(flat[1:], recipe.get('in', ())):
+        n['in'] = s
+    for kind, i, n, inter in recipe.get('mult', ()):
+        if kind == 'node':
+            flat[i]['mult'] = n
+        else:
+            flat[i]['br'][0]['mult'] = n
+            flat[i]['br'][0]['inter'] = inter
+    touched = []
+    for u, v, spelling, sym, both, rid in recipe.get('rings', ()):
+        om, cm = RING_SPELLINGS[spelling](rid)
+        flat[u]['rings'].append([sym, om])
+        flat[v]['rings'].append([sym if both else '', cm])
+        touched += [u, v]
+    for i in touched:
+        flat[i]['rings'] = _sorted_rings(flat[i]['rings'])
+    for i, a in recipe.get('ann', ()):
+        flat[i]['ann'] = ANNOTATIONS[a][0]
+        flat[i]['attrs'] = dict(ANNOTATIONS[a][1])
+    return ast
+
+
+def asts(recipes):
+    for r in recipes:
+        yield build(r)
+
+
 def symbol_assignments(n_positions, max_nondefault, symbols=NONDEFAULT):
     """tuples of symbols for n positions with at most max_nondefault entries different from ''"""
     base = [''] * n_positions
@@ -438,20 +520,6 @@ def symbol_assignments(n_positions, max_nondefault, symbols=NONDEFAULT):
                 yield tuple(t)
 
 
-RING_SPELLINGS = {
-    # name: (opening marker, closing marker) for ring number i (1-based)
-    'd': lambda i: (str(i), str(i)),
-    'p': lambda i: ('%1' + str(i), '%1' + str(i)),
-    'dp': lambda i: (str(i), '%0' + str(i)),
-    'pd': lambda i: ('%0' + str(i), str(i)),
-}
-
-
-def _sorted_rings(rings):
-    """digit markers before %nn markers, otherwise keep the order"""
-    return [r for r in rings if not r[1].startswith('%')] + [r for r in rings if r[1].startswith('%')]
-
-
 def ring_pair_sets(n_nodes, parents, max_rings):
     """sets of up to max_rings distinct node pairs (u < v) that are not tree edges"""
     tree = {(p, i) for i, p in enumerate(parents) if p is not None}
@@ -462,114 +530,79 @@ def ring_pair_sets(n_nodes, parents, max_rings):
             yield combo
 
 
-def place_rings(ast, pairs, spellings, syms, closing_too, reuse_id=False):
-    """
-    Return a copy of `ast` with one ring per pair.  spellings[i] in RING_SPELLINGS, syms[i] the ring bond
-    symbol (written at the opening marker, and also at the closing marker when closing_too[i]).
-    With reuse_id every ring gets id 1 (only legal when the rings do not overlap).
-    """
-    ast = copy_ast(ast)
-    flat = flat_nodes(ast)
-    for i, (u, v) in enumerate(pairs):
-        k = 1 if reuse_id else i + 1
-        om, cm = RING_SPELLINGS[spellings[i]](k)
-        flat[u]['rings'].append([syms[i], om])
-        flat[v]['rings'].append([syms[i] if closing_too[i] else '', cm])
-    for n in flat:
-        n['rings'] = _sorted_rings(n['rings'])
-    return ast
-
-
-def set_in_symbols(ast, syms):
-    """copy of ast with the incoming symbols of nodes 1.. (order of appearance) set from syms"""
-    ast = copy_ast(ast)
-    flat = flat_nodes(ast)
-    for n, s in zip(flat[1:], syms):
-        n['in'] = s
-    return ast
-
-
 # ------------------------------------------------------------------------------------------------
 # C04 enumerators (no multipliers)
 # ------------------------------------------------------------------------------------------------
-def c04_exhaustive(max_tokens, max_depth=3, max_rings=2, max_nondefault=2, spellings=('d', 'p', 'dp', 'pd'),
-                   ring_tokens_limit=None, min_tokens=1):
+def c04_recipes(max_tokens, max_depth=3, max_rings=2, max_nondefault=2, min_tokens=1,
+                spellings=('d', 'p', 'dp', 'pd')):
     """
     Every skeleton with min_tokens..max_tokens node tokens x every set of <= max_rings ring bonds (between nodes
-    that are not already bonded) x ring spellings x every assignment of bond symbols to the positions (one per
-    tree edge, one per ring bond) with at most max_nondefault symbols.  Rings are only placed on skeletons with
-    at most ring_tokens_limit tokens (None = no limit).  Two rings take the spellings pairwise equal or
-    (digit, %nn); the non-overlapping case additionally reuses ring id 1.  A ring symbol is written at the
-    opening marker; with a non-default symbol the variant 'same symbol at both markers' is added.
+    that are not already bonded; all of them may be open at the same time) x ring spellings x every assignment
+    of bond symbols to the positions (one per tree edge, one per ring bond) with at most max_nondefault
+    symbols.  One ring takes every spelling (digit, %nn, digit opened / %0n closed and the reverse); two rings
+    take (d,d) (p,p) (d,p) (p,d) (dp,pd), and when the first is closed before the second is opened additionally
+    the same id for both.  A ring symbol is written at the opening marker; with a non-default symbol the
+    variant 'same symbol at both markers' is added.  Every recipe is inside the scope by construction.
     """
     for k in range(min_tokens, max_tokens + 1):
-        for skel in skeletons(k, max_depth):
-            parents = []
-            flat_nodes(skel, parents=parents)
+        for skel in skeleton_shapes(k, max_depth):
+            parents = skeleton_parents(skel)
             n_edges = k - 1
-            rings_ok = ring_tokens_limit is None or k <= ring_tokens_limit
-            for pairs in ring_pair_sets(k, parents, max_rings if rings_ok else 0):
+            for pairs in ring_pair_sets(k, parents, max_rings):
                 nr = len(pairs)
                 if nr == 0:
-                    spell_opts = [()]
+                    spell_opts = [((), ())]
                 elif nr == 1:
-                    spell_opts = [(s,) for s in spellings]
+                    spell_opts = [((s,), (1,)) for s in spellings]
                 else:
-                    spell_opts = [('d',) * nr, ('p',) * nr, ('d', 'p') + ('d',) * (nr - 2),
-                                  ('p', 'd') + ('d',) * (nr - 2), ('dp', 'pd') + ('d',) * (nr - 2)]
-                reuse_opts = [False]
-                if nr == 2 and pairs[0][1] < pairs[1][0]:
-                    reuse_opts = [False, True]
+                    ids = tuple(range(1, nr + 1))
+                    spell_opts = [(('d',) * nr, ids), (('p',) * nr, ids), (('d', 'p') + ('d',) * (nr - 2), ids),
+                                  (('p', 'd') + ('d',) * (nr - 2), ids), (('dp', 'pd') + ('d',) * (nr - 2), ids)]
+                    if nr == 2 and pairs[0][1] < pairs[1][0]:
+                        spell_opts += [(('d', 'd'), (1, 1)), (('p', 'p'), (1, 1))]
                 for assign in symbol_assignments(n_edges + nr, max_nondefault):
-                    base = set_in_symbols(skel, assign[:n_edges])
+                    ins = list(assign[:n_edges])
                     rsyms = assign[n_edges:]
-                    close_opts = [tuple(False for _ in rsyms)]
+                    close_opts = [(False,) * nr]
                     if any(rsyms):
                         close_opts.append(tuple(bool(s) for s in rsyms))
-                    for sp in spell_opts:
-                        for reuse in reuse_opts:
-                            if reuse and sp not in (('d', 'd'), ('p', 'p')):
-                                continue
-                            for cl in close_opts:
-                                ast = place_rings(base, pairs, sp, rsyms, cl, reuse) if nr else base
-                                if scope_violation(ast, max_depth) is None:
-                                    yield ast
+                    for sp, ids in spell_opts:
+                        for cl in close_opts:
+                            r = {'skel': skel, 'in': ins}
+                            if nr:
+                                r['rings'] = [[pairs[i][0], pairs[i][1], sp[i], rsyms[i], cl[i], ids[i]] for i in range(nr)]
+                            yield r
 
 
-def c04_annotated(max_tokens, max_depth=3):
-    """Every skeleton x every single node x every annotation of ANNOTATIONS, plus one ring / one symbol after it
-    (the annotation must not disturb the scanning of what follows the node)."""
+def c04_annotated_recipes(max_tokens, max_depth=3):
+    """Every skeleton x every single node x every annotation of ANNOTATIONS, alone, with a symbol on the next
+    node, and with a ring opened on the annotated node (the annotation must not disturb what follows it)."""
     for k in range(1, max_tokens + 1):
-        for skel in skeletons(k, max_depth):
+        for skel in skeleton_shapes(k, max_depth):
+            parents = skeleton_parents(skel)
+            tree = {(p, i) for i, p in enumerate(parents) if p is not None}
             for pos in range(k):
-                for ann, attrs in ANNOTATIONS:
-                    ast = copy_ast(skel)
-                    flat = flat_nodes(ast)
-                    flat[pos]['ann'] = ann
-                    flat[pos]['attrs'] = dict(attrs)
-                    yield ast
+                for a in range(len(ANNOTATIONS)):
+                    yield {'skel': skel, 'ann': [[pos, a]]}
                     if pos + 1 < k:
-                        a2 = copy_ast(ast)
-                        flat_nodes(a2)[pos + 1]['in'] = '='
-                        yield a2
-                    if pos + 2 < k:
-                        a3 = copy_ast(ast)
-                        f3 = flat_nodes(a3)
-                        f3[pos]['rings'].append(['#', '1'])
-                        f3[k - 1]['rings'].append(['', '1'])
-                        if scope_violation(a3, max_depth) is None:
-                            yield a3
+                        ins = [''] * (k - 1)
+                        ins[pos] = '='
+                        yield {'skel': skel, 'ann': [[pos, a]], 'in': ins}
+                    if pos < k - 1 and (pos, k - 1) not in tree:
+                        yield {'skel': skel, 'ann': [[pos, a]], 'rings': [[pos, k - 1, 'd', '#', False, 1]]}
+            if k >= 2:
+                # every node annotated at once
+                yield {'skel': skel, 'ann': [[i, (i * 3 + k) % len(ANNOTATIONS)] for i in range(k)]}
 
 
 def random_skeleton(rng, n_tokens, max_depth=3, p_branch=0.35):
-    """random arrangement of n_tokens node tokens"""
+    """random arrangement of n_tokens node tokens (AST)"""
     counter = [0]
 
     def chain(budget, depth):
-        # returns a chain using exactly `budget` tokens
         out = []
         while budget > 0:
-            n = mk_node(NAMES[counter[0] % len(NAMES)] + ('' if counter[0] < len(NAMES) else str(counter[0] // len(NAMES))))
+            n = mk_node(_name(counter[0]))
             counter[0] += 1
             budget -= 1
             out.append(n)
@@ -579,56 +612,6 @@ def random_skeleton(rng, n_tokens, max_depth=3, p_branch=0.35):
                 budget -= size
         return out
     return chain(n_tokens, 0)
-
-
-def decorate_random(rng, ast, max_depth=3, p_sym=0.3, p_ann=0.25, max_rings=3, max_open=3, tries=20):
-    """random symbols, annotations and rings (no multipliers); result is always inside the scope"""
-    ast = copy_ast(ast)
-    parents = []
-    flat = flat_nodes(ast, parents=parents)
-    for n in flat[1:]:
-        if rng.random() < p_sym:
-            n['in'] = rng.choice(NONDEFAULT)
-    for n in flat:
-        if rng.random() < p_ann:
-            ann, attrs = rng.choice(ANNOTATIONS)
-            n['ann'] = ann
-            n['attrs'] = dict(attrs)
-    k = len(flat)
-    tree = {(p, i) for i, p in enumerate(parents) if p is not None}
-    want = rng.randint(0, max_rings)
-    used_pairs = set()
-    next_id = [1]
-    for _ in range(want):
-        for _try in range(tries):
-            if k < 3:
-                break
-            u, v = sorted(rng.sample(range(k), 2))
-            if (u, v) in tree or (u, v) in used_pairs:
-                continue
-            trial = copy_ast(ast)
-            tf = flat_nodes(trial)
-            rid = next_id[0]
-            form = rng.choice(['d', 'd', 'p', 'dp', 'pd'])
-            if rid > 9 and form != 'p':
-                form = 'p'
-            if form == 'p':
-                om = cm = '%' + ('%02d' % (10 + rid))
-            else:
-                om, cm = RING_SPELLINGS[form](rid)
-            sym = rng.choice(NONDEFAULT) if rng.random() < p_sym else ''
-            both = bool(sym) and rng.random() < 0.3
-            tf[u]['rings'].append([sym, om])
-            tf[v]['rings'].append([sym if both else '', cm])
-            for n in (tf[u], tf[v]):
-                rng.shuffle(n['rings'])
-                n['rings'] = _sorted_rings(n['rings'])
-            if scope_violation(trial, max_depth) is None and _max_open(trial) <= max_open:
-                ast = trial
-                used_pairs.add((u, v))
-                next_id[0] += 1
-                break
-    return ast
 
 
 def _max_open(ast):
@@ -645,11 +628,57 @@ def _max_open(ast):
     return best
 
 
+def add_random_rings(rng, ast, candidates, want, max_depth=3, p_sym=0.3, max_open=3, allow_ring_in_unit=False):
+    """try to add `want` ring bonds between the candidate node pairs; returns a new AST inside the scope"""
+    candidates = list(candidates)
+    rng.shuffle(candidates)
+    rid = 1 + max([ring_id(m) % 10 for _, m in _markers_in(ast)] or [0])
+    for (u, v) in candidates:
+        if want <= 0 or rid > 9:
+            break
+        trial = copy_ast(ast)
+        tf = flat_nodes(trial)
+        form = rng.choice(['d', 'd', 'p', 'dp', 'pd'])
+        om, cm = RING_SPELLINGS[form](rid)
+        sym = rng.choice(NONDEFAULT) if rng.random() < p_sym else ''
+        both = bool(sym) and rng.random() < 0.3
+        tf[u]['rings'].append([sym, om])
+        tf[v]['rings'].append([sym if both else '', cm])
+        for n in (tf[u], tf[v]):
+            rng.shuffle(n['rings'])
+            n['rings'] = _sorted_rings(n['rings'])
+        if scope_violation(trial, max_depth, allow_ring_in_unit) is None and _max_open(trial) <= max_open:
+            ast = trial
+            rid += 1
+            want -= 1
+    return ast
+
+
+def decorate_random(rng, ast, max_depth=3, p_sym=0.3, p_ann=0.25, max_rings=3, max_open=3):
+    """random symbols, annotations and rings (no multipliers); result is always inside the scope"""
+    ast = copy_ast(ast)
+    parents = []
+    flat = flat_nodes(ast, parents=parents)
+    for n in flat[1:]:
+        if rng.random() < p_sym:
+            n['in'] = rng.choice(NONDEFAULT)
+    for n in flat:
+        if rng.random() < p_ann:
+            ann, attrs = rng.choice(ANNOTATIONS)
+            n['ann'] = ann
+            n['attrs'] = dict(attrs)
+    k = len(flat)
+    tree = {(p, i) for i, p in enumerate(parents) if p is not None}
+    pairs = [(u, v) for u in range(k) for v in range(u + 1, k) if (u, v) not in tree]
+    return add_random_rings(rng, ast, pairs, rng.randint(0, max_rings), max_depth, p_sym, max_open)
+
+
 def c04_random(seed, count, min_tokens=5, max_tokens=14, max_depth=3):
+    """seeded random ASTs (as {'ast': ...} cases) beyond the exhaustive bound"""
     rng = random.Random(seed * 104729 + 4)
     for _ in range(count):
         k = rng.randint(min_tokens, max_tokens)
-        yield decorate_random(rng, random_skeleton(rng, k, max_depth), max_depth)
+        yield {'ast': decorate_random(rng, random_skeleton(rng, k, max_depth), max_depth)}
 
 
 # ------------------------------------------------------------------------------------------------
@@ -657,8 +686,7 @@ def c04_random(seed, count, min_tokens=5, max_tokens=14, max_depth=3):
 # ------------------------------------------------------------------------------------------------
 def multiplier_sites(ast):
     """
-    ('node', i) for every node i (order of appearance) that may take |n, ('branch', i) for every node i whose
-    single branch may take |n -- rings are looked at later by scope_violation.
+    ('node', i) for every node i (order of appearance), ('branch', i) for every node i with exactly one branch.
     """
     sites = []
     for i, n in enumerate(flat_nodes(ast)):
@@ -666,57 +694,6 @@ def multiplier_sites(ast):
         if len(n['br']) == 1:
             sites.append(('branch', i))
     return sites
-
-
-def apply_multipliers(ast, choice):
-    """choice = [(kind, node index, n, inter symbol)], returns a decorated copy"""
-    ast = copy_ast(ast)
-    flat = flat_nodes(ast)
-    for kind, i, n, inter in choice:
-        if kind == 'node':
-            flat[i]['mult'] = n
-        else:
-            flat[i]['br'][0]['mult'] = n
-            flat[i]['br'][0]['inter'] = inter
-    return ast
-
-
-def c05_exhaustive(max_tokens, max_depth=3, max_mults=2, counts=(2, 3), max_nondefault=2, min_tokens=1,
-                   symbols=NONDEFAULT, with_ring=True):
-    """
-    Every skeleton with <= max_tokens node tokens x every choice of 1..max_mults multiplier sites (nodes and
-    single branches; anchor-with-multiplier + multiplied branch excluded) x counts x every assignment of bond
-    symbols to the positions (incoming symbol of every node but the first, the 'inter' symbol of every
-    multiplied branch) with at most max_nondefault symbols.  With `with_ring` one ring bond between two
-    nodes outside every multiplied unit is added as an extra variant (symbol-free assignments only).
-    """
-    for k in range(min_tokens, max_tokens + 1):
-        for skel in skeletons(k, max_depth):
-            sites = multiplier_sites(skel)
-            parents = []
-            flat_nodes(skel, parents=parents)
-            for r in range(1, max_mults + 1):
-                for chosen in itertools.combinations(sites, r):
-                    for ns in itertools.product(counts, repeat=r):
-                        n_inter = sum(1 for kind, _ in chosen if kind == 'branch')
-                        probe = apply_multipliers(skel, [(kind, i, n, '') for (kind, i), n in zip(chosen, ns)])
-                        if scope_violation(probe, max_depth) is not None:
-                            continue
-                        for assign in symbol_assignments(k - 1 + n_inter, max_nondefault, symbols):
-                            inter = iter(assign[k - 1:])
-                            ast = apply_multipliers(set_in_symbols(skel, assign[:k - 1]),
-                                                    [(kind, i, n, next(inter) if kind == 'branch' else '')
-                                                     for (kind, i), n in zip(chosen, ns)])
-                            yield ast
-                        if with_ring:
-                            for (u, v) in ring_pairs_outside_units(probe, parents):
-                                for sym in ('', '='):
-                                    a = copy_ast(probe)
-                                    f = flat_nodes(a)
-                                    f[u]['rings'].append([sym, '1'])
-                                    f[v]['rings'].append(['', '1'])
-                                    if scope_violation(a, max_depth) is None:
-                                        yield a
 
 
 def _unit_members(ast):
@@ -728,8 +705,7 @@ def _unit_members(ast):
         for n in chain:
             idx = counter[0]
             counter[0] += 1
-            unit_here = in_unit or n['mult'] is not None or any(b['mult'] is not None for b in n['br'])
-            if unit_here:
+            if in_unit or n['mult'] is not None or any(b['mult'] is not None for b in n['br']):
                 inside.add(idx)
             for b in n['br']:
                 walk(b['chain'], in_unit or b['mult'] is not None)
@@ -745,75 +721,129 @@ def ring_pairs_outside_units(ast, parents):
             if u not in inside and v not in inside and (u, v) not in tree]
 
 
-def c05_annotated(max_tokens, max_depth=3):
-    """one multiplier, and an annotation on a node inside the multiplied unit (every copy must carry it)"""
-    anns = [ANNOTATIONS[0], ANNOTATIONS[4], ANNOTATIONS[8]]
+def c05_recipes(max_tokens, max_depth=3, max_mults=2, counts=(2, 3), max_nondefault=2, min_tokens=1,
+                symbols=NONDEFAULT, with_ring=True, branch_in_unit=True):
+    """
+    Every skeleton with <= max_tokens node tokens x every choice of 1..max_mults multiplier sites (any node, any
+    branch that is the only branch of its anchor; an anchor with a multiplier of its own is excluded) x counts x
+    every assignment of bond symbols to the positions (incoming symbol of every node but the first -- for the
+    node after a multiplied unit that is the symbol after |n --, and the 'inter' symbol of every multiplied
+    branch) with at most max_nondefault symbols.  With `with_ring`: one ring bond (plain and '=') between two
+    nodes outside every multiplied unit, without other symbols.  With branch_in_unit False, multiplied
+    branches whose content contains a branch are left out.
+    """
+    for k in range(min_tokens, max_tokens + 1):
+        for skel in skeleton_shapes(k, max_depth):
+            base = skeleton_to_ast(skel)
+            sites = multiplier_sites(base)
+            parents = skeleton_parents(skel)
+            for r in range(1, max_mults + 1):
+                for chosen in itertools.combinations(sites, r):
+                    probe = build({'skel': skel, 'mult': [[kind, i, 2, ''] for kind, i in chosen]})
+                    if scope_violation(probe, max_depth) is not None:
+                        continue
+                    if not branch_in_unit and outer_multiplied_branch_contains_branch(probe):
+                        continue
+                    n_inter = sum(1 for kind, _ in chosen if kind == 'branch')
+                    ring_pairs = ring_pairs_outside_units(probe, parents) if with_ring else []
+                    for ns in itertools.product(counts, repeat=r):
+                        for assign in symbol_assignments(k - 1 + n_inter, max_nondefault, symbols):
+                            inter = iter(assign[k - 1:])
+                            yield {'skel': skel, 'in': list(assign[:k - 1]),
+                                   'mult': [[kind, i, n, next(inter) if kind == 'branch' else '']
+                                            for (kind, i), n in zip(chosen, ns)]}
+                        for (u, v) in ring_pairs:
+                            for sym in ('', '='):
+                                yield {'skel': skel, 'mult': [[kind, i, n, ''] for (kind, i), n in zip(chosen, ns)],
+                                       'rings': [[u, v, 'd', sym, False, 1]]}
+
+
+def c05_annotated_recipes(max_tokens, max_depth=3, branch_in_unit=False):
+    """one multiplier |2, and an annotation on one node inside the multiplied unit (every copy must carry it)"""
+    anns = [0, 4, 8]
     for k in range(1, max_tokens + 1):
-        for skel in skeletons(k, max_depth):
-            for kind, i in multiplier_sites(skel):
-                probe = apply_multipliers(skel, [(kind, i, 2, '')])
+        for skel in skeleton_shapes(k, max_depth):
+            for kind, i in multiplier_sites(skeleton_to_ast(skel)):
+                mult = [[kind, i, 2, '']]
+                probe = build({'skel': skel, 'mult': mult})
                 if scope_violation(probe, max_depth) is not None:
                     continue
-                members = sorted(_unit_members(probe))
-                for m in members:
-                    for ann, attrs in anns:
-                        a = copy_ast(probe)
-                        f = flat_nodes(a)
-                        f[m]['ann'] = ann
-                        f[m]['attrs'] = dict(attrs)
-                        yield a
+                if not branch_in_unit and outer_multiplied_branch_contains_branch(probe):
+                    continue
+                for m in sorted(_unit_members(probe)):
+                    for a in anns:
+                        yield {'skel': skel, 'mult': mult, 'ann': [[m, a]]}
 
 
-def c05_ring_in_unit(max_tokens, max_depth=3):
-    """a multiplied branch whose unit (anchor + branch) contains a ring that opens and closes inside the unit"""
+def c05_ring_in_unit_recipes(max_tokens, max_depth=3):
+    """a multiplied flat branch whose unit (anchor + branch) contains one ring that opens and closes inside the
+    unit (needs allow_ring_in_unit in scope_violation)"""
     for k in range(3, max_tokens + 1):
-        for skel in skeletons(k, max_depth):
-            parents = []
-            flat_nodes(skel, parents=parents)
+        for skel in skeleton_shapes(k, max_depth):
+            base = skeleton_to_ast(skel)
+            parents = skeleton_parents(skel)
             tree = {(p, i) for i, p in enumerate(parents) if p is not None}
-            for kind, i in multiplier_sites(skel):
+            flat = flat_nodes(base)
+            for kind, i in multiplier_sites(base):
                 if kind != 'branch':
                     continue
-                probe = apply_multipliers(skel, [(kind, i, 2, '')])
-                if scope_violation(probe, max_depth) is not None:
+                sub = flat_nodes(flat[i]['br'][0]['chain'])
+                if any(m['br'] for m in sub):
                     continue
-                # members of this unit: the anchor and everything in its branch
-                sub = flat_nodes(flat_nodes(probe)[i]['br'][0]['chain'])
-                members = [i] + [i + 1 + j for j in range(len(sub))]
+                members = list(range(i, i + 1 + len(sub)))
                 for u, v in itertools.combinations(members, 2):
                     if (u, v) in tree:
                         continue
-                    a = copy_ast(probe)
-                    f = flat_nodes(a)
-                    f[u]['rings'].append(['', '1'])
-                    f[v]['rings'].append(['', '1'])
-                    if scope_violation(a, max_depth, allow_ring_in_unit=True) is None:
-                        yield a
+                    r = {'skel': skel, 'mult': [[kind, i, 2, '']], 'rings': [[u, v, 'd', '', False, 1]]}
+                    if scope_violation(build(r), max_depth, allow_ring_in_unit=True) is None:
+                        yield r
 
 
-def c05_random(seed, count, min_tokens=4, max_tokens=14, max_depth=3, allow_branch_in_unit=True, max_count=12):
-    """random skeleton, random decoration, 1..3 random multipliers (counts 1..3, sometimes up to max_count)"""
+def c05_branch_count_one_recipes(max_tokens, max_depth=3):
+    """|1 on a flat branch"""
+    for k in range(2, max_tokens + 1):
+        for skel in skeleton_shapes(k, max_depth):
+            for kind, i in multiplier_sites(skeleton_to_ast(skel)):
+                if kind != 'branch':
+                    continue
+                r = {'skel': skel, 'mult': [[kind, i, 1, '']]}
+                a = build(r)
+                if scope_violation(a, max_depth) is None and not outer_multiplied_branch_contains_branch(a):
+                    yield r
+
+
+def c05_random(seed, count, min_tokens=4, max_tokens=14, max_depth=3, branch_in_unit=False, max_count=12,
+               max_nodes=150):
+    """random skeleton, 1..3 random multipliers (counts 2..3, sometimes up to max_count, on nodes also 1), random
+    symbols at every position, annotations, up to two rings outside the multiplied units"""
     rng = random.Random(seed * 15485863 + 5)
     produced = 0
     while produced < count:
         k = rng.randint(min_tokens, max_tokens)
-        skel = random_skeleton(rng, k, max_depth)
-        sites = multiplier_sites(skel)
+        ast = random_skeleton(rng, k, max_depth)
+        sites = multiplier_sites(ast)
         rng.shuffle(sites)
-        choice = []
+        flat = flat_nodes(ast)
         taken = set()
         for kind, i in sites[:rng.randint(1, 3)]:
             if i in taken:
                 continue
             taken.add(i)
             n = rng.choice([2, 2, 3, 3, 2, rng.randint(2, max_count)])
-            choice.append((kind, i, n, rng.choice(NONDEFAULT) if (kind == 'branch' and rng.random() < 0.4) else ''))
-        ast = apply_multipliers(skel, choice)
+            if kind == 'node':
+                if rng.random() < 0.1:
+                    n = 1
+                flat[i]['mult'] = n
+            else:
+                flat[i]['br'][0]['mult'] = n
+                if rng.random() < 0.4:
+                    flat[i]['br'][0]['inter'] = rng.choice(NONDEFAULT)
         if scope_violation(ast, max_depth) is not None:
             continue
-        if not allow_branch_in_unit and outer_multiplied_branch_contains_branch(ast):
+        if not branch_in_unit and outer_multiplied_branch_contains_branch(ast):
             continue
-        flat = flat_nodes(ast)
+        if denote_size(ast) > max_nodes:
+            continue
         for n in flat[1:]:
             if rng.random() < 0.3:
                 n['in'] = rng.choice(NONDEFAULT)
@@ -822,32 +852,15 @@ def c05_random(seed, count, min_tokens=4, max_tokens=14, max_depth=3, allow_bran
                 ann, attrs = rng.choice(ANNOTATIONS)
                 n['ann'] = ann
                 n['attrs'] = dict(attrs)
-        # one or two rings between nodes outside every unit
         parents = []
         flat_nodes(ast, parents=parents)
-        pairs = ring_pairs_outside_units(ast, parents)
-        rng.shuffle(pairs)
-        rid = 1
-        for (u, v) in pairs[:rng.randint(0, 2)]:
-            trial = copy_ast(ast)
-            tf = flat_nodes(trial)
-            form = rng.choice(['d', 'p', 'dp', 'pd'])
-            om, cm = RING_SPELLINGS[form](rid)
-            sym = rng.choice(NONDEFAULT) if rng.random() < 0.3 else ''
-            tf[u]['rings'].append([sym, om])
-            tf[v]['rings'].append(['', cm])
-            tf[u]['rings'] = _sorted_rings(tf[u]['rings'])
-            tf[v]['rings'] = _sorted_rings(tf[v]['rings'])
-            if scope_violation(trial, max_depth) is None:
-                ast = trial
-                rid += 1
-        if denote_size(ast) > 120:
-            continue
+        ast = add_random_rings(rng, ast, ring_pairs_outside_units(ast, parents), rng.randint(0, 2), max_depth)
         produced += 1
-        yield ast
+        yield {'ast': ast}
 
 
 def denote_size(ast):
+    """number of nodes of the denoted graph"""
     def size(chain):
         t = 0
         for n in chain:
@@ -876,17 +889,29 @@ def outer_multiplied_branch_contains_branch(chain):
     return False
 
 
+_RE_SYM_AFTER_NODE_MULT = re.compile(r'\]\|\d+[.\-=#$]')
+_RE_CLOSURES_THEN_TOKEN = re.compile(r'\)(?:[.\-=#$]?\|\d+)?[.\-=#$]?\).*\[#')
+
+
 def symbol_after_node_multiplier(text):
-    import re
-    return re.search(r'\]\|\d+[.\-=#$]', text) is not None
+    return _RE_SYM_AFTER_NODE_MULT.search(text) is not None
 
 
 def consecutive_closures_then_token(text):
-    """two branch closures with no node token between them (multipliers / symbols may sit between), and a node
-    token somewhere after them"""
-    import re
-    return re.search(r'\)(?:[.\-=#$]?\|\d+)?[.\-=#$]?\).*\[#', text) is not None
+    """two branch closures with no node token between them (a multiplier / symbols may sit between), and a
+    node token somewhere after them"""
+    return _RE_CLOSURES_THEN_TOKEN.search(text) is not None
 
 
 def branch_multiplier_one(chain):
     return any(any(b['mult'] == 1 or branch_multiplier_one(b['chain']) for b in n['br']) for n in chain)
+
+
+def ring_inside_multiplied_unit(chain):
+    for n in chain:
+        for b in n['br']:
+            if b['mult'] is not None and (n['rings'] or any(True for _ in _markers_in(b['chain']))):
+                return True
+            if ring_inside_multiplied_unit(b['chain']):
+                return True
+    return False
